@@ -92,6 +92,14 @@ CLAIMED = {
             "Enumerated and generated block calls; declared parameter types (modelled kinds), NilClass surplus parameters, restoration of a shadowed outer variable and invisibility of block-local variables are asserted through dbtp. Exploration.",
             "Item/Flatten/UnifyArgument parameter kinds are not modelled: only scoping is asserted for them.",
             "DESIGN.md §4 C17"),
+    "C09": ("property-based testing (Hypothesis: generated straight-line programs over a hand-written configuration) against a reference model of literal, collection and declared-return types",
+            "Generated-input search; after every step and at the end, `dbtp v` must equal the model's type for v structurally (scalar/union sets, array element sets, hash). Exploration.",
+            "Nested arrays, absent hash keys and SelfArray on plain objects are outside the model (the documentation does not fix them).",
+            "DESIGN.md §4 C09"),
+    "C12": ("property-based testing (Hypothesis: corpus, generated and mutator-rich programs) with an invariant oracle on the in-memory builtin method table (verif hook snapshot before/after the four rounds)",
+            "Generated-input search; every table entry that exists after loading the configuration must render identically after analysing the program (arguments, return type incl. variants, flags, block parameters, overloads). Exploration.",
+            "The observable is the guard-on build's table (add-only hook); entries added by inference and the display cache are ignored.",
+            "DESIGN.md §4 C12"),
 }
 
 PENDING_REASON = "check not built yet in this round (planned in DESIGN.md §3.11); no claim is made"
